@@ -17,6 +17,7 @@ RULE = ("sources: nsrc 1-3, nchan 1-2, length 2*nsrc*512 + [0,300], i.i.d. Gauss
         "degenerate window count; distinct by SHA-1 of the drawn parameters")
 ASSUMPTIONS = [
     "image SDR and ISR are not scale-invariant by the BSS_EVAL definition (e_spat = P_j(est) - s_true) and are deliberately not asserted under scaling; SIR/SAR are",
+    "integer PCM input (int16) must give the values of the same samples in float64: converting is a multiplication by 1.0, which the statement covers",
     "short signals (>= 2*nsrc*512 samples) only; conditioning problems of long correlated audio are out of reach of a unit-cost budget",
     "decibel values compared with tolerance 1e-6 dB when below 150 dB; framewise columns must equal the per-window call bit-for-bit",
 ]
@@ -131,6 +132,7 @@ def crit_case(draw, images):
     c["scale_which"] = draw(st.sampled_from(["est", "ref"]))
     c["scale_idx"] = draw(st.integers(0, c["nsrc"] - 1))
     c["sigma"] = list(draw(st.permutations(list(range(c["nsrc"])))))
+    c["pcm"] = draw(st.integers(0, 2)) == 0
     return c
 
 
@@ -191,6 +193,18 @@ def pred_crit(case, ctx):
     for k in keys:
         if not _same_db(o0[k], o3[k]):
             raise Violation("%s: %s changes from %r to %r when %s source %d is multiplied by %r" % (name, k, o0[k], o3[k], case["scale_which"], i, c))
+    # (b') integer PCM: the same sample values as int16 (what scipy.io.wavfile.read returns) and as float64 (= multiplied by 1.0)
+    if case.get("pcm"):
+        top = max(float(np.abs(ref).max()), float(np.abs(est).max()))
+        ri = np.round(ref / top * 30000.0).astype(np.int16)
+        ei = np.round(est / top * 30000.0).astype(np.int16)
+        if all(np.any(x) for x in ri.reshape(nsrc, -1)) and all(np.any(x) for x in ei.reshape(nsrc, -1)):
+            oi = ctx.call(_run, images, ri, ei, False)
+            of = ctx.call(_run, images, ri.astype(np.float64), ei.astype(np.float64), False)
+            for k in oi:
+                if k != "perm" and not _same_db(oi[k], of[k]):
+                    raise Violation("%s: %s is %r for int16 sources but %r for the same samples as float64" % (name, k, oi[k], of[k]))
+            ctx.event("int16_sources")
     # (d) perfect estimate
     if case["kind"] == "copy":
         if [int(x) for x in perm] != list(range(nsrc)):
